@@ -1541,10 +1541,10 @@ PROPS = {
             "rule": "random descriptions in the documented format drawn as data (frames with 0-6 axis lists incl. the written-out axis lists of the named joints, the named 3-DoF joints and floating base, fixed frames as omitted / empty joint, joint_frame with r / E / both / neither / omitted, body with optional com / inertia / omitted, unnamed frames, optional gravity); one canonical text (luadesc lines) goes to both sides: the C++ harness renders it to Lua text (numbers as exact quotients) and calls the real loader after 0-2 other loads in the same process, the Lean driver runs LuaLoad.load on the data; constraint sets with contact (normal / normal_sets, point optional) and loop (axis / axis_sets, optional transforms, stabilization) tables, names, ids, regrouping; a frame whose parent name only an earlier file defines; a stream outside the format (duplicate / ROOT names, missing parent, unknown type name, 7 axes, missing mass, missing / malformed constraint fields): error kind and what is left behind; compared: load result, structural dump, all parameters, name lookups, constraint-set contents (bodies, frames, axes, ids, stabilisation, row names), dynamics",
             "explanation": "correspondence: loader output = formal loader model (exact structural comparison + numeric parameters + dynamics); theorems (RbdlProofs/Props/C19.lean): the formal loader equals issuing the translated construction calls, is history-free with the per-load name map (counterexample for the process-wide map), keeps the model well-formed, assigns ids in frame order, resolves names and parents, and builds constraint sets in table order; the Lua interpreter itself is not modelled (descriptions enter as data)",
             "assumptions": COMMON_ASSUMPTIONS + ["Lua 5.3 evaluates (p/q) to the correctly rounded double"]},
-    "C20": {"gen": None, "custom": custom_C20, "level": "other",
+    "C20": {"gen": None, "custom": custom_C20, "level": "proof",
             "rule": "N threads x N private instances (one interpreter with its own Model / ConstraintSet per case: dynamics, kinematics, constrained dynamics, Lua loads with private temporary files) run concurrently for several rounds and compared bit-for-bit with solo runs; neighbouring cases interleaved line by line on one thread; thorough tier: the same under ThreadSanitizer; distinct = number of cases (instances)",
             "explanation": "theorem: call-granularity non-interference for a world with explicit globals (RbdlProofs/Props/C20.lean); tie: the writable symbols of the freshly compiled library and addons (nm) must equal the declared list tools/globals_expected.json; search: concurrent and interleaved runs vs solo runs, ThreadSanitizer in the thorough tier",
-            "level_text": "partial: the theorem is about call-granularity interleavings of a model whose only shared components are the declared globals; instruction-level races, allocator and libc behaviour are outside the model and are only searched for (threads, TSan)",
+            "level_text": "partial proof: non-interference is a theorem for every schedule of calls and of per-instance micro-steps (RbdlProofs/Props/C20.lean) about a model whose only shared components are the declared globals; the frame conditions are tied to the compiled code by the symbol-table check on every run; instruction-level races, allocator and libc behaviour are outside the model and are only searched for (fresh-process references, threads, TSan)",
             "assumptions": ["the writable-symbol list extracted by nm is complete for static storage (function-local statics included)"]},
     "C12": {"gen": gen_C12, "harness": "driver_bal",
             "extra_srcs": lambda: [os.path.join(os.environ.get("VERIF_REPO", "/repo"), "addons/balance/BalanceToolkit.cc")],
